@@ -1,2 +1,4 @@
 pub mod c03;
 pub mod c04;
+pub mod c10;
+pub mod vmrun;
